@@ -106,8 +106,10 @@ CLAIMS.update({
             "technique": TECH_FORK, "design_ref": "DESIGN.md section 4 (C18)"},
     "C15": {"text": "Partial (state groups only): the shipped supervisor, worker, client and bootstrap schemas of pkg/node/states, dumped from the current source, are driven "
                     "through the real mutation path for every history of two single-state mutations from the empty machine with symbolic choices; no two members of a "
-                    "mutually-Removing group (pool status, pool normalisation, work status) are ever active together and Require closure holds.",
-            "note": "The pool-size gates, error-kill threshold and worker map bookkeeping of the supervisor handlers are NOT encoded (they need the supervisor struct with its "
+                    "mutually-Removing group (pool status, pool normalisation, work status) are ever active together and Require closure holds. Gate kernel: the real "
+                    "ForkWorkerEnter, min, PoolReadyEnter and PoolReadyExit on a Supervisor literal for every Min/Max 0..6 and 0..7 tracked / ready workers: no fork at Max, "
+                    "PoolReady granted iff at least min(Min,Max) are ready and withdrawn iff fewer are.",
+            "note": "readyWorkers is overridden by a counter; ForkingWorkerEnter, the error-kill threshold (TTL caches) and the worker-map writers are NOT encoded (they need the "
                     "RPC / process plumbing); histories longer than two mutations are outside the bound. Trusted: go/ssa, symgo, z3.",
             "technique": TECH_FORK, "design_ref": "DESIGN.md A.4 (C15)"},
     "C17": {"text": "In-memory history kernel executed path by path: the real tracer.TransitionEnd (match rules, TrackRejected, checks never tracked, rotation at MaxRecords, "
